@@ -40,6 +40,9 @@ func childMain(path string) int {
 		return 3
 	}
 	base := os.Getenv(childEnv + "_DIR")
+	if mode := os.Getenv(freshModeEnv); mode != "" {
+		return freshChild(c, mode, base, os.Getenv(childEnv+"_OUT")) // fresh.go
+	}
 	if c.Cold {
 		// first of all, before anything else of the library has run in this process
 		noStepCounter = true
